@@ -84,6 +84,7 @@ GAgent ==
   \/ /\ IsPoll /\ pc = "Acquire" /\ ~MidPending("acquire") /\ Acquire(Row.acquire, IF Row.acquire = "ok" THEN Row.g ELSE "none") /\ Keep
   \/ /\ pc = "Acquire" /\ GMid("acquire")
   \/ /\ IsPoll /\ pc = "StoreCreateTmp" /\ StoreCreateTmp("ok") /\ Keep
+  \/ /\ IsPoll /\ (StoreWriteTmp("ok") \/ StoreRename("ok") \/ ReadBack("ok")) /\ Keep
   \/ /\ IsPoll /\ pc = "Attest" /\ ~MidPending("attest") /\ Attest(Row.attest) /\ Keep
   \/ /\ pc = "Attest" /\ GMid("attest")
   \/ /\ IsPoll /\ pc = "Sleep"
